@@ -65,6 +65,24 @@ def queries(tier):
         qs.append(Query("allocfail-sub-" + skel.tag(w), "c05/sub.c", tus=C05.TUS, env=C05.ENV, defs=d, unwind=10, unwind_rules=skel.KIT_RULES, timeout=300, group="~c05/sub.c#fault",
                         params={"entry_point": "sub0 subscribe / set RECVBUF / receive path inside a skeleton", "skeleton": w,
                                 "failing_allocation": "FA(k): k-th allocator request from there on; FM(k): k-th message duplication"}))
+    # the same fault pass through the PAIR / PUSH buffer resizes and the REQ / SURVEYOR id allocation
+    from props import C08, C06, C04, C07
+    for w in ("A(0) S(0,1) S(1,1) FA(0) B(2) S(2,1) T(0,1) T(0,1) T(0,1) Z", "FA(0) B(4) A(0) S(0,1) T(0,1) Z", "A(0) W(0,1) FA(0) Q(4) W(0,1) R(0,0) R(1,0) Z"):
+        for p0 in (0, 1):
+            d = {"SKEL": w, "VH_FAULTPASS": 1}
+            if p0:
+                d["PAIR0"] = 1
+            qs.append(Query("allocfail-%s-%s" % ("pair0" if p0 else "pair1", skel.tag(w)), "c08/pair.c", tus=C08.TUS, env=C08.ENV, defs=d, unwind=10, unwind_rules=skel.KIT_RULES,
+                            timeout=300, group="~c08/pair.c#fault", params={"entry_point": "pair set SENDBUF / RECVBUF inside a skeleton", "skeleton": w, "failing_allocation": "the resized ring"}))
+    for w in ("B(2) S(0,1) S(1,1) FA(0) B(4) A(0) T(0,1) T(0,1) Z", "FA(0) B(4) S(0,0) Z"):
+        qs.append(Query("allocfail-push-" + skel.tag(w), "c06/push.c", tus=C06.TUS, env=C06.ENV, defs={"SKEL": w, "VH_FAULTPASS": 1}, unwind=10, unwind_rules=skel.KIT_RULES,
+                        timeout=300, group="~c06/push.c#fault", params={"entry_point": "push set SENDBUF inside a skeleton", "skeleton": w, "failing_allocation": "the resized ring"}))
+    for w in ("A(0) FI(0) S(0,0,1) S(0,1,1) T(0,1) Z", "A(0) S(0,0,1) T(0,1) FI(0) S(0,1,1) R(0,2,1) Z"):
+        qs.append(Query("allocfail-req-" + skel.tag(w), "c04/req.c", tus=C04.TUS, env=C04.ENV, defs={"SKEL": w, "VH_FAULTPASS": 1}, cdefs=["-DENV_MSG_CAP=48"], unwind=12,
+                        unwind_rules=skel.KIT_RULES, timeout=300, group="~c04/req.c#fault", params={"entry_point": "req0_ctx_send", "skeleton": w, "failing_allocation": "the request id (id table cannot grow)"}))
+    for w in ("A(0) FI(0) V(0,0) V(0,1) Z", "A(0) V(0,0) R(0,1,1) FI(0) V(0,2) Z"):
+        qs.append(Query("allocfail-surveyor-" + skel.tag(w), "c07/survey.c", tus=C07.TUS, env=C07.ENV, defs={"SKEL": w, "VH_FAULTPASS": 1}, cdefs=["-DENV_MSG_CAP=48"], unwind=12,
+                        unwind_rules=skel.KIT_RULES, timeout=300, group="~c07/survey.c#fault", params={"entry_point": "surv0_ctx_send", "skeleton": w, "failing_allocation": "the survey id (id table cannot grow)"}))
     # inproc hand-off of a shared message: the private copy for the receiver cannot be allocated
     from props import C01
     for q in C01.queries(tier):
